@@ -14,7 +14,7 @@ RULE = ('Non-empty lists of 1-8 paths between one node pair generated directly (
         'non-trivial = >= 3 paths with a tie in one criterion and different winners for two criteria.')
 ASSUMPTIONS = ['all paths of a list connect the same ordered node pair and have strictly increasing integer times']
 TECHNIQUE = 'PBT against a brute-force (min-then-filter) oracle; exhaustive multisets from a path pool'
-BUDGET = {'quick': {'cases': 20000, 'seconds': 40}, 'thorough': {'cases': 400000, 'seconds': 500}}
+BUDGET = {'quick': {'cases': 20000, 'seconds': 40}, 'thorough': {'cases': 1000000, 'seconds': 500}}
 SHRINK_KEYS = ['paths']
 SHRINK_MIN = {'paths': 1}
 
